@@ -1,6 +1,7 @@
 import OtelVerif.Lemmas.AttrSet
 import OtelVerif.Lemmas.SeriesStore
 import OtelVerif.Lemmas.SeriesKey
+import OtelVerif.Lemmas.SeriesNodup
 /-! # C08 — metric series are keyed by attribute-set value; filters and limits lose nothing
 
 Declarative side, written from the property text:
@@ -240,6 +241,13 @@ theorem same_series_iff (ag : Agg V A) (f : Filter) (t : Table (List KV) A) (a b
 example : (Table.empty 2000 : Table (List KV) Int).size + 2 < (Table.empty 2000 : Table (List KV) Int).limit := by decide
 
 end table
+
+/-! ## one series per attribute set -/
+
+/-- in every collect output of every history, for every reader, each attribute set (key) occurs at most once -/
+theorem one_series_per_attribute_set {K A V : Type} [DecidableEq K] (c : Cfg K A V) (ops : List (Op K V)) (r : Nat)
+    (o : List (K × A)) (h : (r, some o) ∈ (Store.run c (Store.init c) ops).2) : (o.map (·.1)).Nodup :=
+  run_nodup c ops (Store.init c) (by simp [KeysNodup, Store.init, Table.empty]) r o h
 
 /-! ## the cardinality limit -/
 
